@@ -4,6 +4,29 @@ import os, re, json, math
 import vf
 
 LEVEL = "proof"
+CLAIM = dict(cat="proof", design="§3 C20, §8 O2/O3",
+   text="Coq theorems on literal models of YAMLDictionary (parser constructor, print_contents in plain and used-values form), Unit/UnitConverter and the Cartesian snapshot reader's index arithmetic: "
+        "parse(print(d)) = d for EVERY well-formed dictionary (any nesting depth; names without ':' '#' LF and without surrounding blanks; values non-empty, trimmed, '#'-free; keys in std::map order), on lines and on the "
+        "LF-joined text; the printer's pop loop with shrinking bound (O3) is proved harmless (stale stack entries only re-print group headers); the used-values dump re-parses to the same keys with the used values; "
+        "over R: to-SI/from-SI are inverse for non-zero factors, products and compound unit token lists convert as the product of their parts, exponents add, photon energy/wavelength <-> frequency conversions invert "
+        "each other; Unit::operator^= at exponent 0 (O2) is modelled in two variants: for the pinned code 'u^0 has factor 1' and 'exponents add' are refuted with the witness cm (cm^0 converts with 0.01), for the repaired "
+        "code (hooks/c20_fix_unit_pow_zero.patch) u^0 = 1 and u^(a+b) = u^a u^b hold for all integers; the built-in unit table agrees with itself within 1 ulp (kpc/pc, Gyr/Myr/yr, km/m/cm, kg/g, J/erg, bar/Pa, angstrom); "
+        "the snapshot reader maps the midpoint of cell i of n to index i for every n (over Q). "
+        "Tie: the extracted models are compared verbatim (text in hex, doubles as bit patterns) with the real YAMLDictionary, ParameterFile and UnitConverter on generated parameter trees, typed queries with defaults, "
+        "used-values dumps fed back, and compound unit strings on every run; the unit table and SI unit names are dumped from the real converter.",
+   note="The HDF5 snapshot write/read clause is covered ONLY by the index-inverse theorem (exact arithmetic, exact midpoints): no snapshot is written or read, stored precision and binary64 rounding of "
+        "ncell*(x-anchor)/side are not checked. Number formatting/parsing (operator<< with 6 digits, strtod/stod/sscanf/stoi) are oracles: 'reproduces every physical value to the printed precision' is checked on the real "
+        "code by re-reading (relative 5.1e-6), not proved. Unit theorems are over R; binary64 only through bit-exact correspondence. Trusted: Coq kernel, standard real-number axioms (sig_forall_dec, "
+        "functional_extensionality_dep), PrimFloat primitives, extraction (ExtrOcamlString, ExtrOCamlFloats). The harness turns cmac_error (abort) into an exception to compare rejected inputs. "
+        "KNOWN FINDING (not repaired): a string parameter used with an empty value (SPHNGSnapshotDensityFunction 'DensityFunction:binary dump name', default \"\") is dumped as 'name:  # (default value)', which reads back "
+        "as a group header, so the used-values dump is rejected when fed back (key empty_used_value).",
+   technique="Coq proof (lists of bytes, sorted-map invariant; reals; rationals) + extraction-based differential correspondence with the real classes")
+
+# which variant of Unit::operator^= the code under test is expected to be: True = pinned commit (exponent 0 keeps the
+# scale factor, reported as finding unit_pow_zero), False = repaired (hooks/c20_fix_unit_pow_zero.patch)
+PINNED_POW_ZERO = False
+if os.environ.get("C20_PINNED_POW_ZERO") in ("0", "1"):      # for trying the patch: CMI_REPO=<worktree> C20_PINNED_POW_ZERO=0
+    PINNED_POW_ZERO = os.environ["C20_PINNED_POW_ZERO"] == "1"
 HARNESS = os.path.join(vf.VERIF, "harness/c20/roundtrip_harness.cpp")
 DRIVER = os.path.join(vf.VERIF, "ocaml/c20_driver.ml")
 
@@ -255,7 +278,7 @@ def run_impl(ck, cmds, timeout=900):
 
 
 def run_model(ck, cmds, timeout=900):
-    rc, out = vf.run_lines([os.path.join(ck.scratch, "model")], "\n".join(cmds) + "\n", timeout=timeout)
+    rc, out = vf.run_lines([os.path.join(ck.scratch, "model"), "1" if PINNED_POW_ZERO else "0"], "\n".join(cmds) + "\n", timeout=timeout)
     return rc, canon(out)
 
 
@@ -590,7 +613,9 @@ def run(ck):
                 n_q_checked += 1
             if why:
                 f = cmd.split()
-                violate("C20 used-values dump fed back as parameter file: " + why, {"cmd": cmd, "text": unhx(f[1]).decode("latin-1"),
+                nqs = int(f[2])
+                queries = [{"type": f[3 + 3 * j], "key": unhx(f[4 + 3 * j]).decode("latin-1"), "default": unhx(f[5 + 3 * j]).decode("latin-1")} for j in range(nqs)]
+                violate("C20 used-values dump fed back as parameter file: " + why, {"cmd": cmd, "text": unhx(f[1]).decode("latin-1"), "queries": queries,
                         "dump": unhx(fields(out).get("W", "-")).decode("latin-1"), "impl_out": out}, {"kind": vk})
         elif kind == "C":
             f = out.split()
@@ -743,6 +768,9 @@ def run(ck):
         "harness replaces cmac_error (abort) by a C++ exception so that rejected inputs can be compared; undefined behaviour of the parser (dedent below every open level) is modelled as an error and not generated",
         "round-trip theorem hypotheses: key components non-empty, no ':' '#' LF, no leading/trailing blank/tab; values non-empty, trimmed, no '#' or LF; keys strictly sorted in byte order (std::map)",
     ]
+    ck.notes.append("observation outside C20 (malformed input, not a violation): the YAML parser has undefined behaviour (segmentation fault, exit 139) instead of a cmac_error when a line is "
+                    "dedented to an indentation below every open level but above 0, e.g. 'g:\\n    a: 1\\n  b: 2\\n' (levels.back() on an empty vector); the model returns an error there and the generators avoid it")
+    ck.notes.append("Unit::operator^= variant expected by the correspondence: %s" % ("pinned (exponent 0 keeps the factor)" if PINNED_POW_ZERO else "repaired (exponent 0 gives factor 1)"))
     # a break must not hide behind the two confirmed defects (which may be registered as known findings)
     confirmed = ("unit_pow_zero", "empty_used_value")
     if ck.breaks and not any((not v["no_input"]) and v["key"].get("kind") not in confirmed for v in ck.violations):
